@@ -10,7 +10,7 @@ Theorem C07_channel_isolated : forall s c f c', c' <> c ->
 Proof. exact on_frame_other. Qed.
 Print Assumptions C07_channel_isolated.
 
-Theorem C07_connection_untouched : forall s c f,
+Theorem C07_connection_untouched : forall s c f, s_sendfail s = false ->
   s_conn (on_frame s c f) = s_conn s /\ s_cerrs (on_frame s c f) = s_cerrs s /\
   s_io (on_frame s c f) = s_io s.
 Proof. exact on_frame_conn. Qed.
@@ -18,9 +18,9 @@ Print Assumptions C07_connection_untouched.
 
 (* the broker's close reason is recorded with its code, the channel is closed *)
 Theorem C07_close_reason_recorded : forall s c v code x,
-  get_chan (s_chans s) c = Some x -> s_conn s <> CLOSED ->
+  get_chan (s_chans s) c = Some x -> s_conn s <> CLOSED -> s_sendfail s = false ->
   let s' := close_channel s c v code in
-  s_out s' = {| o_chan := c; o_name := WChCloseOk; o_str := [] |} :: s_out s /\
+  s_out s' = {| o_chan := c; o_name := WChCloseOk; o_str := []; o_sent := true |} :: s_out s /\
   exists v', get_chan (s_chans s') c = Some v' /\
     c_state v' = CLOSED /\ c_tags v' = [] /\ c_inbound v' = [] /\
     c_errs v' = c_errs v ++ [{| e_kind := EChan; e_code := Some code |}].
